@@ -10,6 +10,7 @@ import ChythonModel.Proofs.C03RingIff
 import ChythonModel.Proofs.C03PrintShape
 import ChythonModel.Proofs.C03Hydrogens
 import ChythonModel.Proofs.C03HydTotal
+import ChythonModel.Proofs.C03SmilesIff
 /-!
 # C03 — SMILES reader builds exactly the molecule the text denotes, rejects the rest
 
@@ -342,6 +343,50 @@ example : ¬ InLanguage [tC, .cyc 1, tC, tC] := fun h => by
   obtain ⟨⟨st, hp, _⟩, _⟩ := (accept_iff_ring_discipline_partial _ (by decide)).mpr h
   cases hp
 
+/-- **End to end, on `smiles()` itself** (the function the driver runs), for a one-word molecule string (no blank, no `>`,
+    hence no CXSMILES block): `smiles` returns a molecule **iff** the string tokenizes, `parser` accepts the tokens, every
+    atom names an element with an admissible isotope and charge (`atomCheck` = `Element.from_symbol(…)(isotope, charge)`),
+    and the bond loop accepts the bonds — i.e. `Accepts` of the token list plus valid atoms. -/
+theorem smiles_ok_iff_accepts (data : Str) (hne : data ≠ []) (hw : splitWs data = [data]) (hnr : data.contains 62 = false) :
+    (∃ res, smiles data = .ok res) ↔
+      ∃ toks st, smilesTokenize data = .ok toks ∧ parse false toks = .ok st ∧
+        (∀ a ∈ st.atoms, ∃ z, atomCheck a = .ok z) ∧ bondsBuild st := smiles_ok_iff data hne hw hnr
+
+/-- hence: a one-word string that `smiles()` reads, that starts with an atom and writes no ring bond after a `)`, is a
+    sentence of the language (with ring-closure discipline), and `parser`'s record is the denoted graph -/
+theorem smiles_accepted_is_sentence (data : Str) (hne : data ≠ []) (hw : splitWs data = [data])
+    (hnr : data.contains 62 = false) (res : Result) (h : smiles data = .ok res) :
+    ∃ toks st, smilesTokenize data = .ok toks ∧ parse false toks = .ok st ∧
+      (startsAtom toks = true → noRingAfterClose toks = true →
+        ∃ (c : Chain B) (g : Graph B), toks = toToksB (printR (·.2) c) ∧ denoteR aromB (·.2) c = some g ∧
+          simpleBonds g.bonds = true ∧ st.atoms = g.atoms.map (fun b => strip b.1) ∧
+          st.types = g.atoms.map (fun b => tyOf b.1) ∧ st.bonds = g.bonds) := by
+  obtain ⟨toks, st, htok, hp, _, hb⟩ := (smiles_ok_iff data hne hw hnr).mp ⟨res, h⟩
+  refine ⟨toks, st, htok, hp, ?_⟩
+  intro hsa hnrac
+  obtain ⟨hring, hneo⟩ := smilesTokenize_ring data toks htok
+  cases toks with
+  | nil => cases hsa
+  | cons t rest =>
+    cases t with
+    | atom ty a =>
+      obtain ⟨c, g, hc, hg, ea, et, eb⟩ := accepted_is_denotation ty a rest st hring hneo hnrac hp hb
+      have hs := ((bondsBuild_iff _ st (by simp) (fun t ht => ringTok_noOther (hring t ht)) hp).mp hb).1
+      exact ⟨c, g, hc, hg, by rw [← eb]; exact hs, ea, et, eb⟩
+    | _ => cases hsa
+
+/-- conversely: a one-word string whose token list is a sentence and whose atoms are valid is read by `smiles()` -/
+theorem sentence_is_read (data : Str) (hne : data ≠ []) (hw : splitWs data = [data]) (hnr : data.contains 62 = false)
+    (toks : List Tok) (htok : smilesTokenize data = .ok toks) (hin : InLanguage toks)
+    (hatoms : ∀ st, parse false toks = .ok st → ∀ a ∈ st.atoms, ∃ z, atomCheck a = .ok z) :
+    ∃ res, smiles data = .ok res := by
+  obtain ⟨hring, _⟩ := smilesTokenize_ring data toks htok
+  obtain ⟨⟨st, hp, hb⟩, _⟩ := (accept_iff_ring_discipline_partial toks hring).mpr hin
+  exact (smiles_ok_iff data hne hw hnr).mpr ⟨toks, st, htok, hp, hatoms st hp, hb⟩
+
+example : ∃ res, smiles [67, 49, 67, 67, 49] = .ok res := ⟨_, rfl⟩          -- C1CC1
+example : splitWs [67, 49, 67, 67, 49] = [[67, 49, 67, 67, 49]] := rfl
+
 /-! ## hydrogens after graph construction (`create_molecule`, second half) -/
 
 open ChythonModel.Model.Valence ChythonModel.Spec in
@@ -431,6 +476,39 @@ open ChythonModel.Model.Valence in
 example : assignH ⟨7, 1, false, []⟩ (some 4) = some (some 4, false) := by decide +kernel
 open ChythonModel.Model.Valence in
 example : assignH ⟨6, 0, false, []⟩ (some 2) = some (some 4, false) := by decide +kernel
+
+open ChythonModel.Model.Valence in
+/-- the hydrogen loop with the three keywords of `smiles()` that act inside it (`keep_implicit`,
+    `ignore_aromatic_radicals`, `ignore_carbon_radicals`; driver op `H`) is, at the defaults, the loop all theorems above
+    are about -/
+theorem hydrogen_options_default (m : MolOut) : molHydrogensOpt {} m = molHydrogens m := hydLoopOpt_default m m.atoms
+
+open ChythonModel.Model.Valence in
+/-- `keep_implicit=True`: every bracket atom keeps exactly the written count (and its radical mark) -/
+theorem keep_implicit_written (o : HOpts) (ho : o.keepImplicit = true) (c : Ctx) (h : Nat) :
+    assignHOpt o c (some h) = (tableOf c.z).map fun _ => (some (bracketH h), c.radical) := by
+  unfold assignHOpt
+  congr 1
+  funext t
+  exact assignOpt_keepImplicit o ho _ _ c h
+
+open ChythonModel.Model.Valence in
+/-- `ignore_carbon_radicals=True`: a carbon not named in the CXSMILES radical block never ends as a radical -/
+theorem ignore_carbon_radicals_sound (o : HOpts) (ho : o.ignoreCarbonRadicals = true) (c : Ctx) (hyd : Option Nat)
+    (hz : c.z = 6) (hr : c.radical = false) (r : Option Nat × Bool) (h : assignHOpt o c hyd = some r) : r.2 = false := by
+  unfold assignHOpt at h
+  cases ht : tableOf c.z with
+  | none => rw [ht] at h; cases h
+  | some t =>
+    rw [ht] at h
+    simp only [Option.map_some, Option.some.injEq] at h
+    subst h
+    exact assignOpt_ignoreCarbonRadicals o ho _ _ c hyd hz hr
+
+open ChythonModel.Model.Valence in
+example : assignHOpt { ignoreCarbonRadicals := true } ⟨6, 0, false, []⟩ (some 3) = some (some 4, false) := by decide +kernel
+open ChythonModel.Model.Valence in
+example : assignHOpt { keepImplicit := true } ⟨6, 0, false, []⟩ (some 2) = some (some 2, false) := by decide +kernel
 
 /-- **Tie to the pipeline**: on every molecule the structural part of `create_molecule` builds, the hydrogen loop
     raises nothing and yields one entry per atom in atom order; entry `i` is `assignH` of the context
